@@ -12,19 +12,33 @@
 //	           group; AddClient holds Group.mu and asks the members for
 //	           their permissions: DESIGN.md F5)
 //	churn      joins, leaves, lock changes, description reloads through
-//	           group.Add, GetClients/Range/ClientCount readers and kicks, all
-//	           at once on one group
+//	           group.Add, GetClients/Range/ClientCount/stats.GetGroups readers,
+//	           kicks, chat-history traffic (AddToChatHistory on a full
+//	           history, ClearChatHistory in its three modes, consumers that
+//	           iterate over the slice returned by GetChatHistory as a joining
+//	           client's loop does) and producers/consumer of an
+//	           unbounded.Channel, all at once on one group
+//	snapshot   deterministic: the slice returned by GetChatHistory is a
+//	           snapshot; it must not change when the history is modified
+//	           afterwards
 //
 // Monitors (implementation only; there is no model correspondence):
 //
 //	C13.no_deadlock   every operation returns within the watchdog time
 //	C13.membership    at quiescence the members of the group are exactly the
 //	                  clients that joined and did not leave
+//	C13.history_snapshot  what GetChatHistory returned does not change when
+//	                  the group's history is appended to while full, cleared
+//	                  by id / by user / completely, or read again
+//
+// The runner builds this driver with the Go race detector (props: race=true)
+// and runs it with GORACE=halt_on_error=1: an unsynchronised access anywhere
+// in the exercised code ends the run and is reported as the violation.
 //
 // After the first deadlock the driver stops (the stuck goroutines hold the
-// group's locks, nothing else can be learnt in this process).  Built by the
-// runner without -race; tools/c13_race.sh builds and runs the same binary
-// under the race detector.
+// group's locks, nothing else can be learnt in this process); after a failure
+// of the deterministic snapshot monitor the concurrent part is skipped, so
+// that the monitor's replay is reported rather than the race report.
 package main
 
 import (
@@ -44,6 +58,8 @@ import (
 	"github.com/jech/galene/diskwriter"
 	"github.com/jech/galene/group"
 	"github.com/jech/galene/rtpconn"
+	"github.com/jech/galene/stats"
+	"github.com/jech/galene/unbounded"
 
 	"verifharness/internal/tr"
 )
@@ -342,7 +358,7 @@ func (h *hist) churn(w *world, r *tr.Rand, workers, steps int, autolock bool) {
 				defer wg.Done()
 				rr := tr.NewRand(seeds[k])
 				for i := 0; i < steps; i++ {
-					switch rr.Pick(4, 2, 2, 2, 1, 1, 1) {
+					switch rr.Pick(4, 2, 2, 2, 1, 1, 1, 3, 3, 1, 1) {
 					case 0: // a web client joins and leaves
 						c := &fake{id: fmt.Sprintf("w%d-%d", k, i)}
 						if gg, err := group.AddClient(name, c, creds("op")); err == nil {
@@ -369,6 +385,7 @@ func (h *hist) churn(w *world, r *tr.Rand, workers, steps int, autolock bool) {
 						_ = g.Description()
 						_, _ = group.GetDescription(name)
 						_ = group.GetSubGroups("")
+						_ = stats.GetGroups()
 					case 3: // lock changes
 						g.SetLocked(rr.Bool(), "m")
 					case 4: // description reload
@@ -378,6 +395,57 @@ func (h *hist) churn(w *world, r *tr.Rand, workers, steps int, autolock bool) {
 						g.AddToChatHistory("i", "s", nil, time.Now(), "", "v")
 						_ = g.GetChatHistory()
 						g.UpdateData(map[string]interface{}{"k": i})
+					case 7: // chat: keep the history full, then one more
+						u := fmt.Sprintf("u%d", k)
+						for j := 0; j < 3; j++ {
+							g.AddToChatHistory(fmt.Sprintf("m%d-%d-%d", k, i, j), u, &u, time.Now(), "", fmt.Sprintf("text %d", j))
+						}
+					case 8: // a joining client replays the history: iterate over the returned slice, outside the lock
+						hh := g.GetChatHistory()
+						n := 0
+						for idx := range hh {
+							e := &hh[idx]
+							n += len(e.Id) + len(e.Source) + len(e.Kind)
+							if e.User != nil {
+								n += len(*e.User)
+							}
+							if v, ok := e.Value.(string); ok {
+								n += len(v)
+							}
+							if !e.Time.IsZero() {
+								n++
+							}
+						}
+						_ = n
+					case 9: // clearchat in its three modes
+						u := fmt.Sprintf("u%d", rr.Intn(workers))
+						switch rr.Intn(4) {
+						case 0:
+							g.ClearChatHistory("", "")
+						case 1:
+							g.ClearChatHistory("", u)
+						default:
+							g.ClearChatHistory(fmt.Sprintf("m%d-%d-0", k, i-1), u)
+						}
+					case 10: // an action queue with its producers and its consumer
+						ch := unbounded.New[int]()
+						const per = 40
+						var pw sync.WaitGroup
+						for p := 0; p < 3; p++ {
+							pw.Add(1)
+							go func(p int) {
+								defer pw.Done()
+								for j := 0; j < per; j++ {
+									ch.Put(p*1000 + j)
+								}
+							}(p)
+						}
+						got := 0
+						for got < 3*per {
+							<-ch.Ch
+							got += len(ch.Get())
+						}
+						pw.Wait()
 					case 6: // a recording client comes and goes
 						if dc, err := diskwriter.New(g); err == nil {
 							if _, err := group.AddClient(name, dc, group.ClientCredentials{System: true}); err == nil {
@@ -399,22 +467,121 @@ func (h *hist) churn(w *world, r *tr.Rand, workers, steps int, autolock bool) {
 	}
 }
 
+type histEntry struct {
+	id, source, user, kind, value string
+	hasUser                       bool
+}
+
+func flatten(h []group.ChatHistoryEntry) []histEntry {
+	out := make([]histEntry, len(h))
+	for i, e := range h {
+		out[i] = histEntry{id: e.Id, source: e.Source, kind: e.Kind, value: fmt.Sprint(e.Value)}
+		if e.User != nil {
+			out[i].user, out[i].hasUser = *e.User, true
+		}
+	}
+	return out
+}
+
+// snapshot: GetChatHistory returns a snapshot.  A joining client iterates
+// over it with the group unlocked (rtpconn joinedAction), so later changes of
+// the group's history must not show through.
+func (h *hist) snapshot(w *world, r *tr.Rand, fill int) bool {
+	name := w.newGroup(false, false, "snapshot")
+	h.t.History("lifecycle", "snapshot", fill)
+	var g *group.Group
+	if !h.op("add", func() { g, _ = group.Add(name, nil) }) || g == nil {
+		return false
+	}
+	ok := true
+	users := []string{"alice", "bob", "carol"}
+	for i := 0; i < fill; i++ {
+		u := users[i%len(users)]
+		g.AddToChatHistory(fmt.Sprintf("id-%d", i), u, &u, time.Now(), "", fmt.Sprintf("message %d", i))
+	}
+	h.t.Op(fmt.Sprint(fill), "fill")
+	check := func(after string, mutate func()) {
+		if h.dead {
+			return
+		}
+		var snap []group.ChatHistoryEntry
+		if !h.op("gethistory", func() { snap = g.GetChatHistory() }) {
+			return
+		}
+		saved := flatten(snap)
+		if !h.op(after, mutate) {
+			return
+		}
+		h.t.Checked("C13.history_snapshot")
+		now := flatten(snap)
+		if len(now) != len(saved) {
+			ok = false
+			h.t.Fail("C13", "history_snapshot", fmt.Sprintf("after %s the slice returned earlier by GetChatHistory has %d entries, it had %d", after, len(now), len(saved)))
+			return
+		}
+		for i := range saved {
+			if now[i] != saved[i] {
+				ok = false
+				h.t.Fail("C13", "history_snapshot", fmt.Sprintf(
+					"after %s entry %d of the slice returned earlier by GetChatHistory changed from %v to %v: the joiner's replay aliases the group's live history (unsynchronised read of chat-history state)",
+					after, i, saved[i], now[i]))
+				return
+			}
+		}
+	}
+	u := "dave"
+	check("addtochathistory", func() { g.AddToChatHistory("id-new1", u, &u, time.Now(), "", "one more") })
+	check("addtochathistory x3", func() {
+		for j := 0; j < 3; j++ {
+			g.AddToChatHistory(fmt.Sprintf("id-new2-%d", j), u, &u, time.Now(), "", "more")
+		}
+	})
+	check("gethistory again", func() { _ = g.GetChatHistory() })
+	check("clearchat id", func() {
+		cur := g.GetChatHistory()
+		if len(cur) > 2 {
+			g.ClearChatHistory(cur[1].Id, cur[1].Source)
+		}
+	})
+	check("clearchat user", func() { g.ClearChatHistory("", "bob") })
+	check("addtochathistory after clear", func() { g.AddToChatHistory("id-new3", u, &u, time.Now(), "", "again") })
+	check("clearchat all", func() { g.ClearChatHistory("", "") })
+	check("addtochathistory on empty", func() { g.AddToChatHistory("id-new4", u, &u, time.Now(), "", "fresh") })
+	if ok && !h.dead {
+		h.t.Nontrivial(fmt.Sprintf("snapshot/%d", fill))
+	}
+	return ok
+}
+
 func runLifecycle(t *tr.Trace, r *tr.Rand, n int) {
 	log.SetOutput(io.Discard)
 	w := newWorld()
 	defer w.close()
 	h := &hist{t: t}
 	// regression histories first: the deterministic ones
+	snapOK := true
+	for _, fill := range []int{50, 60, 49, 7} {
+		if !h.snapshot(w, r, fill) {
+			snapOK = false
+		}
+	}
+	if !snapOK {
+		return
+	}
 	h.shutdown(w, r, true, false, 1)
 	h.shutdown(w, r, false, true, 1)
 	h.shutdown(w, r, true, true, 2)
 	h.whipclose(w, r, 300, true)
 	for i := 0; i < n && !h.dead; i++ {
-		switch i % 4 {
+		switch i % 5 {
 		case 0:
 			h.shutdown(w, r, r.Bool(), r.Bool(), r.Range(0, 3))
 		case 1:
 			h.whipclose(w, r, r.Range(50, 400), r.Bool())
+		case 2:
+			if !h.snapshot(w, r, r.Range(1, 120)) {
+				return
+			}
 		default:
 			h.churn(w, r, r.Range(2, 8), r.Range(20, 80), r.Bool())
 		}
